@@ -282,6 +282,10 @@ SPECIAL = [
     ('section-closed-inside-the-file-ok', b'sec {\ninclude("@f1.conf")\ni = x', {b'f1.conf': b'x = 4 }\ni = 8\n'}, None),
     ('name-with-a-directory-part', b'i = 7\ninclude("@dir/f1.conf")\nl += {2}', {b'dir/f1.conf': b'x = 4\ni = 8\n'.replace(b'x = 4\n', b'')}, b'i = 7\ni = 8\nl += {2}'),
     ('name-with-a-directory-part-nested', b'sec { include("@dir/f1.conf") }', {b'dir/f1.conf': b'include("@dir/f2.conf")\n', b'dir/f2.conf': b'x = 4\n'}, b'sec { x = 4 }'),
+    ('dot-file-name', b'i = 7\ninclude("@.f1.conf")\nl += {2}', {b'.f1.conf': b'i = 8\n'}, b'i = 7\ni = 8\nl += {2}'),
+    ('dot-slash-name', b'i = 7\ninclude("@./f1.conf")\nl += {2}', {b'./f1.conf': b'i = 8\n'}, b'i = 7\ni = 8\nl += {2}'),
+    ('dot-slash-dot-file-nested', b'sec { include("@./.f1.conf") }', {b'./.f1.conf': b'include("@.f2.conf")\n', b'.f2.conf': b'x = 4\n'}, b'sec { x = 4 }'),
+    ('directory-then-dot-dot', b'include("@dir/../f1.conf")', {b'dir/../f1.conf': b'i = 8\n', b'dir/keep': b''}, b'i = 8'),
     ('unterminated-string-in-file', b'include("@f1.conf")\ni = 8', {b'f1.conf': b's = "abc'}, None),
     ('unterminated-comment-in-file', b'include("@f1.conf")\ni = 8', {b'f1.conf': b'i = 7 /* abc'}, None),
     ('titled-instances-across-files', b'include("@f1.conf") include("@f2.conf")', {b'f1.conf': b'm { x = 1 }', b'f2.conf': b'm { x = 2 } m { }'}, b'm { x = 1 } m { x = 2 } m { }'),
